@@ -449,10 +449,9 @@ def indication_slot(ctx, rule='C10.indication-slot'):
 
 
 
-def mtu_agreement(ctx):
+def mtu_agreement(ctx, rule='C10.mtu-agreement'):
     """Both ends use min(what I announced, what the peer announced) as ATT_MTU."""
     R, p = ctx.r, ctx.p
-    rule = 'C10.mtu-agreement'
     srv = p.find('bumble.gatt_server.Server.on_att_exchange_mtu_request')
     cli = p.find('bumble.gatt_client.Client.request_mtu')
     if srv is None or cli is None:
